@@ -32,7 +32,9 @@ fn assert_any_equals_typed<A, St: BumpAllocatorSettings>(typed: Stats<'_, A, St>
 
 /// new -> one allocation (symbolic in the first chunk, or a concrete one that forces chunk 2) -> PART:
 /// 0: bookkeeping identities; 1: type-erased == typed (any_stats() and From); 2: a follow-up operation in
-/// {scope exit, reset_to_start, reset, deallocate} then the identities; 3: a claim: handle reports zeros, guard is coherent
+/// {scope exit, reset_to_start, reset, deallocate} then the identities; 3: a claim: handle reports zeros, guard is coherent;
+/// 4: the follow-up operations of 2 (a chunk switch before them leaves a *non-current* chunk with a stale position), then
+/// type-erased == typed
 fn stats_body<A, St: BumpAllocatorSettings, const PART: u8>(header_size: usize, budget: usize)
 where
     A: BaseAllocator<St::GuaranteedAllocated> + Default,
@@ -50,6 +52,23 @@ where
     kani::cover!(r.is_ok() && bump.stats().count() == 1, "[fits] allocation in the first chunk");
     kani::cover!(r.is_err(), "[b0] allocation failed");
     match PART {
+        4 => {
+            let then: u8 = kani::any();
+            kani::assume(then < 3);
+            match then {
+                0 => bump.scoped(|s| {
+                    let _ = s.allocate(any_layout(8, 2));
+                }),
+                1 => bump.reset_to_start(),
+                _ => {
+                    if let Ok(p) = r {
+                        unsafe { bump.deallocate(p.cast(), l) };
+                    }
+                }
+            }
+            kani::cover!(bump.stats().count() == 2 && bump.stats().current_chunk().map_or(false, |c| c.next().is_some()), "[stale] the current chunk is not the newest one");
+            assert_any_equals_typed(bump.stats(), bump.any_stats());
+        }
         0 => assert_stats_coherent(bump.stats(), header_size),
         1 => {
             assert_any_equals_typed(bump.stats(), bump.any_stats());
@@ -115,6 +134,9 @@ stats_harness!(stats_any_over_down1_b0, VAOver, S<1, false>, 64, 0, 1);
 stats_harness!(stats_followup_va_up1_b0, VA, S<1, true>, 32, 0, 2);
 stats_harness!(stats_followup_va_down4_b0, VA, S<4, false>, 32, 0, 2);
 stats_harness!(stats_followup_va_up1_b1, VA, S<1, true>, 32, 1, 2);
+stats_harness!(stats_any_followup_va_up1_b1, VA, S<1, true>, 32, 1, 4);
+stats_harness!(stats_any_followup_stateful_down1_b1, VAStateful, S<1, false>, 48, 1, 4);
+stats_harness!(stats_any_followup_va_down4_b0, VA, S<4, false>, 32, 0, 4);
 stats_harness!(stats_claimed_va_up1_b0, VA, S<1, true>, 32, 0, 3);
 stats_harness!(stats_claimed_stateful_down1_b1, VAStateful, S<1, false>, 48, 1, 3);
 
